@@ -267,6 +267,197 @@ def check_quote_regex(run):
 tv.register("c07-export", gen_export, check_export)
 
 
+# ---- multi-command scripts: one printer instance serves every command of a script ---------------------------------------------------
+def gen_script(env, tier):
+    g = Grammar(env, widths=(2,))
+    l1 = dedup(g.level1())
+    bools = [t for _, t in l1 if env.stc.get_type(t).is_bool_type() and unreadable(t) is None]
+    l2 = [t for _, t in dedup(g.level2(l1)) if env.stc.get_type(t).is_bool_type() and unreadable(t) is None]
+    pool = bools[::(9 if tier == "quick" else 2)] + l2[::(211 if tier == "quick" else 23)]
+    m = g.m
+    out = []
+    for k in range(len(pool) - 1):
+        f1, f2 = pool[k], pool[k + 1]
+        # later commands re-use compound sub-terms of earlier ones (and the other way round)
+        out.append(("triple", [f1, m.Or(f1, f2), m.Not(f2)]))
+        if k % 3 == 0:
+            out.append(("grow", [m.And(f1, f2), f1, m.Implies(f2, f1), f2]))
+    return out
+
+
+def script_of(env, formulas):
+    """declare every symbol once, then one assert per formula - built through the public script API"""
+    from pysmt.smtlib.script import SmtLibScript, SmtLibCommand
+    import pysmt.smtlib.commands as smtcmd
+    sc = SmtLibScript()
+    syms = set()
+    for f in formulas:
+        syms |= set(rs.free_vars(f)) | set(t.function_name() for t in rs.subterms(f) if t.node_type() == op.FUNCTION)
+    for ty in sorted(set(str(c) for f in formulas for c in custom_sorts(f))):
+        pass
+    for sy in sorted(syms, key=lambda x: x.symbol_name()):
+        if sy.symbol_type().is_function_type():
+            sc.add(name=smtcmd.DECLARE_FUN, args=[sy])
+        else:
+            sc.add(name=smtcmd.DECLARE_CONST, args=[sy])
+    for f in formulas:
+        sc.add(name=smtcmd.ASSERT, args=[f])
+    sc.add(name=smtcmd.CHECK_SAT, args=[])
+    return sc
+
+
+def check_script(env, inst, timeout_ms=5000):
+    kind, formulas = inst
+    name = "script"
+    res = {"name": name, "status": "ok", "queries": 0, "t": 0.0, "nontrivial": True}
+    rp = {"kind": "script", "formulas": [bp.to_bp(f) for f in formulas]}
+    if any(custom_sorts(f) for f in formulas):
+        return {"name": name, "status": "ok", "skipped": True}
+    tr = Z3Tr()
+    try:
+        zfs = [tr.tr(f) for f in formulas]
+    except Untranslatable as e:
+        return {"name": name, "status": "ok", "skipped": True}
+    for dag in (False, True):
+        try:
+            buf = io.StringIO()
+            with warnings.catch_warnings():
+                warnings.simplefilter("ignore")
+                script_of(env, formulas).serialize(buf, daggify=dag)
+            text = buf.getvalue()
+        except Exception as e:
+            return {"name": name, "status": "viol", "signature": "script-export/raises:%s" % type(e).__name__,
+                    "describe": "serialising a %d-assert script (daggify=%s) raises %r" % (len(formulas), dag, e), "replay": rp}
+        try:
+            asserts = z3_read(text)
+        except z3.Z3Exception as e:
+            return {"name": name, "status": "viol", "signature": "script-export/rejected",
+                    "describe": "independent reader rejects the %d-assert script %r: %s" % (len(formulas), text[:500], str(e)[:200]),
+                    "replay": rp}
+        if len(asserts) != len(formulas):
+            return {"name": name, "status": "viol", "signature": "script-export/assert-count",
+                    "describe": "%d assertions read from a script with %d: %r" % (len(asserts), len(formulas), text[:300]), "replay": rp}
+        for k, (zt, zf) in enumerate(zip(asserts, zfs)):
+            if zt.eq(zf):
+                continue
+            st, mo, dt = tv.check_valid(zt == zf, timeout_ms, premises=tr.defined)
+            res["queries"] += 1
+            res["t"] += dt
+            if st == "sat":
+                return {"name": name, "status": "viol", "signature": "script-export/meaning", "queried": True, "t": res["t"],
+                        "describe": "assert #%d of the script %s (daggify=%s) is written as %r and read as %s (model %s)"
+                                    % (k, [f.serialize()[:80] for f in formulas], dag, text[:500], str(zt)[:200], mo), "replay": rp}
+            if st != "unsat":
+                return {"name": "script:%s" % formulas[k].serialize()[:100], "status": "inconc", "reason": "unknown %s" % mo,
+                        "queries": res["queries"], "t": res["t"]}
+    res["sample"] = {"script": [f.serialize()[:80] for f in formulas], "verdict": "every assert of the tree and DAG text equals its formula"}
+    return res
+
+
+tv.register("c07-script", gen_script, check_script)
+
+
+# ---- sort declarations: every sort constructor and every sort argument is declared before use, with its arity ---------------------
+def gen_sorts(env, tier):
+    tm = env.type_manager
+    m = env.formula_manager
+    out = []
+    S0, T0 = tm.Type("S0", 0), tm.Type("T0", 0)
+    Lst, Pair, Tri = tm.Type("Lst", 1), tm.Type("Pair", 2), tm.Type("Tri", 3)
+    sorts = [S0, Lst(S0), Lst(T.INT), Lst(Lst(S0)), Pair(S0, T0), Pair(T.INT, S0), Pair(Lst(S0), T0), Tri(S0, T.BOOL, T0),
+             Lst(tm.BVType(4)), tm.ArrayType(T.INT, Lst(S0)), tm.ArrayType(Lst(S0), T.INT), Lst(Pair(S0, T0)),
+             tm.ArrayType(Pair(S0, T.INT), Lst(T0))]
+    for k, ty in enumerate(sorts):
+        x, y = m.Symbol("x%d" % k, ty), m.Symbol("y%d" % k, ty)
+        out.append(("eq", m.Equals(x, y)))
+        fn = m.Symbol("fn%d" % k, tm.FunctionType(T.BOOL, [ty]))
+        out.append(("pred", m.Function(fn, [x])))
+        gn = m.Symbol("gn%d" % k, tm.FunctionType(ty, [T.INT]))
+        out.append(("fun-result", m.Equals(m.Function(gn, [m.Int(0)]), m.Function(gn, [m.Int(1)]))))
+        if not ty.is_array_type():
+            out.append(("quantified", m.ForAll([m.Symbol("q%d" % k, T.INT)], m.Equals(m.Function(gn, [m.Symbol("q%d" % k, T.INT)]), x))))
+    return out
+
+
+def sexprs(text):
+    """tiny s-expression reader (own; atoms as strings, lists as Python lists)"""
+    toks = re.findall(r'\(|\)|\|[^|]*\||"(?:[^"]|"")*"|[^\s()]+', text)
+    stack = [[]]
+    for t in toks:
+        if t == "(":
+            stack.append([])
+        elif t == ")":
+            x = stack.pop()
+            stack[-1].append(x)
+        else:
+            stack[-1].append(t)
+    return stack[0]
+
+
+BUILTIN_SORTS = {"Int": 0, "Real": 0, "Bool": 0, "String": 0, "Array": 2}
+
+
+def sort_uses(sx, declared, errors, where):
+    """sx: a sort s-expression; every constructor must be declared with the arity it is used at"""
+    if isinstance(sx, str):
+        head, args = sx, []
+    elif sx and sx[0] == "_" and len(sx) == 3 and sx[1] == "BitVec":
+        return
+    else:
+        head, args = sx[0], sx[1:]
+    ar = BUILTIN_SORTS.get(head, declared.get(head))
+    if ar is None:
+        errors.append("sort %s used in %s before any declaration" % (head, where))
+    elif ar != len(args):
+        errors.append("sort %s declared with arity %d, used with %d arguments in %s" % (head, ar, len(args), where))
+    for a in args:
+        sort_uses(a, declared, errors, where)
+
+
+def check_sorts(env, inst, timeout_ms=5000):
+    kind, f = inst
+    name = "sorts"
+    rp = {"kind": "sorts", "formula": bp.to_bp(f)}
+    for dag in (False, True):
+        try:
+            text = script_text(f, dag)
+        except Exception as e:
+            return {"name": name, "status": "viol", "signature": "sort-decl/raises:%s" % type(e).__name__,
+                    "describe": "smtlibscript_from_formula(%s) raises %r" % (f.serialize(), e), "replay": rp}
+        declared = {}
+        errors = []
+        for cmd in sexprs(text):
+            if not isinstance(cmd, list) or not cmd:
+                continue
+            if cmd[0] == "declare-sort":
+                if cmd[1] in declared:
+                    errors.append("sort %s declared twice" % cmd[1])
+                declared[cmd[1]] = int(cmd[2]) if len(cmd) > 2 else 0
+            elif cmd[0] == "declare-fun":
+                for p in cmd[2]:
+                    sort_uses(p, declared, errors, "declare-fun " + cmd[1])
+                sort_uses(cmd[3], declared, errors, "declare-fun " + cmd[1])
+            elif cmd[0] == "declare-const":
+                sort_uses(cmd[2], declared, errors, "declare-const " + cmd[1])
+        if errors:
+            return {"name": name, "status": "viol", "signature": "sort-decl/" + kind,
+                    "describe": "%s exported as %r: %s" % (f.serialize(), text[:400], "; ".join(errors[:3])), "replay": rp}
+        # the independent reader must accept the text as well
+        try:
+            asserts = z3_read(text)
+        except z3.Z3Exception as e:
+            return {"name": name, "status": "viol", "signature": "sort-decl/rejected/" + kind,
+                    "describe": "independent reader rejects %r: %s" % (text[:400], str(e)[:200]), "replay": rp}
+        if len(asserts) != 1:
+            return {"name": name, "status": "viol", "signature": "sort-decl/assert-count", "describe": text[:300], "replay": rp}
+    return {"name": name, "status": "ok", "nontrivial": True, "queried": True,
+            "sample": {"formula": f.serialize()[:120], "verdict": "every sort constructor declared once, before use, with the arity used; "
+                       "z3 accepts tree and DAG text"}}
+
+
+tv.register("c07-sorts", gen_sorts, check_sorts)
+
+
 def replay(data):
     env = tv.fresh_env()
     if data.get("kind") == "quote":
@@ -277,6 +468,12 @@ def replay(data):
         if q == nm and not ok:
             return True, "quote(%r) = %r unquoted" % (nm, q)
         return False, "quote(%r) = %r" % (nm, q)
+    if data.get("kind") == "script":
+        r = check_script(env, ("replay", [bp.from_bp(b, env) for b in data["formulas"]]), timeout_ms=20000)
+        return (True, r["describe"]) if r["status"] == "viol" else (False, "status=%s" % r["status"])
+    if data.get("kind") == "sorts":
+        r = check_sorts(env, ("replay", bp.from_bp(data["formula"], env)))
+        return (True, r["describe"]) if r["status"] == "viol" else (False, "status=%s" % r["status"])
     f = bp.from_bp(data["formula"], env)
     r = check_export(env, f, timeout_ms=20000)
     if r["status"] == "viol":
@@ -292,6 +489,8 @@ def run(run, only=None):
                               "(quick) / 1,2,3,4,8; boundary constants (2^64+1, -2^63, 10^30, 10^30/3, 1/10^20); string "
                               "literals with quotes/backslashes; DAG sharing depth 4; user symbols named .def_0/.def_1; "
                               "custom sorts; 23 names needing quotes", "printers": "tree and DAG",
+                  "scripts": "3- and 4-assert scripts whose commands share compound sub-terms (one printer instance per script)",
+                  "sort declarations": "sort constructors of arity 0-3, nested, below arrays and in function signatures",
                   "interpretations": "all (z3 validity)", "names": "simple-symbol regex: all lengths (regex inclusion)"}
     run.outside = ["operators z3 has no reading for (pow, algebraic constants): serialisation is exercised but the text is "
                    "not checked by the independent reader", "non-ASCII string literals (reader decodes bytes)",
@@ -299,6 +498,10 @@ def run(run, only=None):
     run.assumptions = ["z3's SMT-LIB front end reads text per the standard (it is more permissive: Int/Real coercions)"]
     if not only or "export" in only:
         tv.run_family(run, "c07-export", run.tier)
+    if not only or "script" in only:
+        tv.run_family(run, "c07-script", run.tier)
+    if not only or "sorts" in only:
+        tv.run_family(run, "c07-sorts", run.tier)
     if not only or "quote" in only:
         check_quote_regex(run)
     run.extra["programs"] = run.evaluations
